@@ -12,16 +12,17 @@ theorem Owns.poolOK {h : H} {owned : List Nat} (o : Owns h owned) : PoolOK h := 
 /-- everything except the buffers, the jsonEncoder pool, `tick` and `fault` -/
 def SameObj (h h' : H) : Prop :=
   h'.slicePool = h.slicePool ∧ h'.ceh = h.ceh ∧ h'.errPoolCore = h.errPoolCore ∧
-  h'.errPoolZap = h.errPoolZap ∧ h'.stackPool = h.stackPool ∧ h'.inflight = h.inflight ∧ h'.live = h.live ∧ h'.out = h.out
+  h'.errPoolZap = h.errPoolZap ∧ h'.stackPool = h.stackPool ∧ h'.inflight = h.inflight ∧ h'.live = h.live ∧ h'.out = h.out ∧
+  h'.liveMeta = h.liveMeta
 
 theorem SameRest.obj {h h' : H} (r : SameRest h h') : SameObj h h' := r.2
 
-theorem SameObj.rfl' (h : H) : SameObj h h := ⟨rfl, rfl, rfl, rfl, rfl, rfl, rfl, rfl⟩
+theorem SameObj.rfl' (h : H) : SameObj h h := ⟨rfl, rfl, rfl, rfl, rfl, rfl, rfl, rfl, rfl⟩
 
 theorem SameObj.trans {a b c : H} (h1 : SameObj a b) (h2 : SameObj b c) : SameObj a c := by
-  obtain ⟨a2, a3, a4, a5, a6, a7, a8, a9⟩ := h1
-  obtain ⟨b2, b3, b4, b5, b6, b7, b8, b9⟩ := h2
-  exact ⟨b2.trans a2, b3.trans a3, b4.trans a4, b5.trans a5, b6.trans a6, b7.trans a7, b8.trans a8, b9.trans a9⟩
+  obtain ⟨a2, a3, a4, a5, a6, a7, a8, a9, a10⟩ := h1
+  obtain ⟨b2, b3, b4, b5, b6, b7, b8, b9, b10⟩ := h2
+  exact ⟨b2.trans a2, b3.trans a3, b4.trans a4, b5.trans a5, b6.trans a6, b7.trans a7, b8.trans a8, b9.trans a9, b10.trans a10⟩
 
 theorem owns_bufGet (orc : Orc) (h : H) (owned : List Nat) (ho : Owns h owned) :
     Owns (bufGet orc h).2 ((bufGet orc h).1 :: owned) ∧ (∀ i ∈ owned, (bufGet orc h).2.mem i = h.mem i) ∧
